@@ -41,9 +41,12 @@ HOWS = ("timeout", "cancel", "wait_for")
 ENDS = ("timeout", "cancel_tasks", "shutdown")
 # which scenario kinds speak about which property (C14: all of them)
 KINDS_FOR = {
+    "C14": ("first-use-abandoned-at-create", "connection-ended-at-create", "random"),
     "C01": ("first-use-abandoned-at-create", "random"),          # what a reader with history hands out
     "C04": ("first-use-abandoned-at-create",),                   # valid frames after abandoned calls: each delivered, once, in order
-    "C09": ("connection-ended-at-create",),                      # the connection keeps working: later valid frames reach the read queue
+    # the connection keeps working: later valid frames reach the read queue -- and the device: the consumer side goes through the
+    # same helpers/factory (PhysicalDevice.create, import of the device class)
+    "C09": ("connection-ended-at-create", "connection-ended-at-device-import"),
 }
 
 
@@ -178,6 +181,22 @@ def _child_conn_session(sess, vloop, reader_mod):
     first, second = bytes.fromhex(sess["first"]), bytes.fromhex(sess["second"])
     end, fresh, consumers = sess["end"], sess["fresh_protocol"], sess.get("consumers", 0)
 
+    hold_what = sess.get("hold", "all")
+
+    def hold_only(loop):
+        """hold only the imports of frame handler modules / of device classes (as harness/pipefake.PipeLoop tells them apart)"""
+        orig = type(loop).run_in_executor
+
+        def rie(executor, func, *args):
+            is_dev = any(isinstance(a, str) and ".devices" in a for a in args)
+            prev = loop.hold
+            loop.hold = prev and (is_dev == (hold_what == "devices"))
+            try:
+                return orig(loop, executor, func, *args)
+            finally:
+                loop.hold = prev
+        loop.run_in_executor = rie
+
     def producer_of(proto):
         ts = [t for t in proto.tasks if t.get_name() == "frame_producer_task" and not t.done()]
         return ts[-1] if ts else None
@@ -198,6 +217,8 @@ def _child_conn_session(sess, vloop, reader_mod):
         proto = AsyncProtocol(consumers_count=consumers)
         sr1, w1 = asyncio.StreamReader(), _Writer()
         loop.hold = True
+        if hold_what != "all":
+            hold_only(loop)
         proto.connection_established(sr1, w1)
         sr1.feed_data(first)
         for _ in range(3000):
@@ -221,6 +242,8 @@ def _child_conn_session(sess, vloop, reader_mod):
         while loop.held:
             loop.release()
         loop.hold = False
+        if hold_what != "all":
+            del loop.run_in_executor
         for _ in range(20):
             await asyncio.sleep(0)
         p1 = producer_of(proto)
@@ -249,8 +272,11 @@ def _child_conn_session(sess, vloop, reader_mod):
         if consumers == 0:
             out["delivered"] = drain(proto2)
         else:
-            dev = proto2.data.get("ecomax")
-            out["device"] = dev is not None
+            out["device"] = proto2.data.get("ecomax") is not None
+            out["consumers_alive"] = sum(1 for t in proto2.tasks if t.get_name().startswith("frame_consumer_task") and not t.done())
+            out["consumers_ended"] = [("cancelled" if t.cancelled() else repr(t.exception())) for t in proto2.tasks
+                                      if t.get_name().startswith("frame_consumer_task") and t.done()]
+            out["read_queue"] = [proto2._queues.read.qsize(), proto2._queues.read._unfinished_tasks]
         for pr in {id(proto): proto, id(proto2): proto2}.values():
             for t in list(pr.tasks):
                 t.cancel()
@@ -389,9 +415,9 @@ def gen_scenarios(rng, tier, by):
     import framegen as fg
     quick = tier == "quick"
 
-    def frame(mod, n=None):
+    def frame(mod, n=None, sender=None):
         return fg.mk(rng.choice(by[mod]), fg.salted_payload(rng, rng.choice([0, 1, 2, 5, 9]) if n is None else n),
-                     rng.choice([86, 0]), rng.choice([69, 81, 86, 0]))
+                     rng.choice([86, 0]), rng.choice([69, 81, 86, 0]) if sender is None else sender)
 
     def later_sessions(mod, how):
         """new reader objects later in the same process: noise + valid frames of the same module and of the other two"""
@@ -439,6 +465,14 @@ def gen_scenarios(rng, tier, by):
                     sess.append(dict(conn, first=_noise(rng, 5).replace(b"\x68", b"\x69").hex(), fresh_protocol=True))
                 sess += later_sessions(mod, "cancel")[:1]
                 yield "history:connection-ended-at-create:%s:%s" % (mod, end), dict(one_loop=rng.random() < 0.5, sessions=sess)
+    # (b') the consumer side of the same factory: the first connection's tasks are cancelled while a CONSUMER sits in
+    #      PhysicalDevice.create (import of the device class held, frame imports not held); then a connection with consumers
+    for _ in range(reps):
+        for fresh in (False, True):
+            y = fg.mk(rng.choice([25, 49, 50, 53, 8]), b"", rng.choice([86, 0]), 69)     # requests from the ecoMAX: no payload to decode
+            second = _noise(rng, rng.choice([0, 10, 40])) + b"".join(fg.mk(rng.choice([25, 49, 50, 53, 8]), b"", 86, 69) for _ in range(rng.randint(2, 5)))
+            conn = dict(kind="conn", first=y.hex(), end="cancel_tasks", second=second.hex(), fresh_protocol=fresh, cuts=[], consumers=rng.choice([1, 3]), hold="devices")
+            yield "history:connection-ended-at-device-import:cancel_tasks", dict(one_loop=rng.random() < 0.5, sessions=[conn])
     # (c) random histories: every step kind, small pools (identical repeats), reader and connection sessions mixed
     for _ in range(6 if quick else 120):
         sess = []
@@ -535,6 +569,14 @@ def judge(res, label, sc, obs, answers, prop):
             res.count("history:first-connection-ended-at-create" if o.get("first_at_create") else "history:first-connection-ended-elsewhere")
             res.count("history:conn-end:" + s["end"])
             bad_loop = not o.get("alive") or not o.get("connected")
+            if s.get("consumers"):
+                res.count("history:first-connection-ended-at-device-import" if o.get("first_at_create") else "history:device-import-not-reached")
+                to_device = any(x[3] == 69 for x in want)
+                if bad_loop or o.get("consumers_alive") != s["consumers"] or (to_device and not o.get("device")) or o.get("read_queue") != [0, 0]:
+                    res.fail("spec", at, dict(alive=True, connected=True, consumers_alive=s["consumers"], device=to_device, read_queue=[0, 0]), o,
+                             "a connection opened after an earlier one's tasks were cancelled while a consumer sat in PhysicalDevice.create (device class "
+                             "import pending): consumers died / the frames after the noise did not reach the device / the read queue is not balanced")
+                continue
             if "shutdown_raised" in o:
                 res.fail("spec", at, "shutdown() returns", o, "shutdown() of a connection whose producer sits in Frame.create raised / hung")
             if bad_loop or got != want[:len(got)] or len(got) < len(want) - 1:
